@@ -83,3 +83,19 @@ def run(ctx, prop, gens, whats, nbeh, depth=80):
             raise vlib.Infra("binding self-test: corrupted helper trace accepted")
         break
     return behs, traces
+
+
+def finalizer_threads(ctx, prop, quick):
+    """the finalizer gate on real threads (persistent-backed and plain in-memory state): an owner creating / tearing down /
+    destroying, parties adding and removing their finalizers; judged at the collection's linearization points (hook traces,
+    TraceInmem): no destroy commits on a stored value that carries a finalizer. Shared by C03 and C07 (the controllers'
+    finalizer ordering rests on this gate of the store)."""
+    import inmemlib
+    inmemlib.KINDS.setdefault(prop, inmemlib.KINDS["C03"])
+    binary = vlib.go_build_test(ctx, "c03")
+    henv, hdir = inmemlib.traced(ctx, "finthreads")
+    rounds = 40 if quick else 1200
+    vlib.go_run(ctx, binary, "TestFinalizerThreads", dict({"VERIF_ROUNDS": rounds}, **henv), timeout=2400)
+    tr = inmemlib.judge_driver(ctx, prop, hdir, "TestFinalizerThreads")
+    ctx.cov["threaded_finalizer_rounds"] = rounds
+    ctx.cov["threaded_destroys_committed"] = len([1 for t in tr for x in t if x.get("ev") == "op" and x.get("op") == "destroy" and x.get("br") == "ok"])
